@@ -319,6 +319,7 @@ func main() {
 		for i := 0; i < nStopRT; i++ {
 			rt = append(rt, genStopRT(c, i))
 		}
+		rt = append(rt, overlapRT(2), overlapRT(4))
 		for i := 0; i < nGwHist && nViolations < 3; i++ {
 			try(c, genGwHist(c, i))
 		}
